@@ -332,7 +332,7 @@ func TypeNode(t *Type, curNs string, ch Chooser) *YNode {
 	if t == nil {
 		return YS("null") // only used inside union sequences; rendered unquoted below
 	}
-	if s, ok := Short(t, curNs, Plain); ok && s != "" {
+	if s, ok := Short(t, curNs, Plain); ok && s != "" && !t.ContainsDimComment() {
 		// shorthand exists: choose it unless the chooser asks for the expanded form
 		expandable := t.Kind != KPrim && t.Kind != KParam && !(t.Kind == KRef && len(t.Args) == 0)
 		if !expandable || ch(2) == 0 {
@@ -443,6 +443,43 @@ func dimsNode(t *Type, ch Chooser) *YNode {
 		}
 	}
 	flow := ch(2) == 1
+	if t.HasDimComment() {
+		// documented dimensions: block mapping name -> length (all named) or block sequence, comments above the entries
+		allNamed := true
+		for _, d := range t.Dims {
+			if d.Name == "" {
+				allNamed = false
+			}
+		}
+		if allNamed {
+			n := YMap()
+			for _, d := range t.Dims {
+				k := YS(d.Name)
+				k.HeadComment = commentLines(d.Comment)
+				if d.Len != nil {
+					n.PutK(k, YS(fmt.Sprint(*d.Len)))
+				} else {
+					n.PutK(k, YNull())
+				}
+			}
+			return n
+		}
+		n := YSeq()
+		for _, d := range t.Dims {
+			var item *YNode
+			switch {
+			case d.Len != nil:
+				item = YS(fmt.Sprint(*d.Len))
+			case d.Name != "":
+				item = YS(d.Name)
+			default:
+				item = nullNode()
+			}
+			item.HeadComment = commentLines(d.Comment)
+			n.Seq = append(n.Seq, item)
+		}
+		return n
+	}
 	switch {
 	case !named && !sized:
 		if ch(2) == 0 {
